@@ -135,10 +135,12 @@ void xcm_attr_map_add(struct xcm_attr_map *attr_map, const char *attr_name,
 {
     ut_assert(attr_name && attr_value);
 
-    xcm_attr_map_del(attr_map, attr_name);
-
+    /* copy first: the name or value may be the ones stored under
+       this very key (e.g., as returned by xcm_attr_map_get_str()) */
     struct attr *attr =
 	attr_create(attr_name, attr_type, attr_value, attr_value_len);
+
+    xcm_attr_map_del(attr_map, attr_name);
 
     LIST_INSERT_HEAD(&attr_map->attrs, attr, entry);
 }
